@@ -364,7 +364,12 @@ func (vc *VC) zeroObject(st *State, t types.Type, ref string) {
 			}
 			vc.writeKey(st, fieldKey(t, f.Name()), f.Type(), ref, vc.zero(f.Type()))
 		}
-		// ghost fields are left unconstrained
+		// ghost fields start at their zero value too (for external types this is an assumption about the zero value)
+		for _, g := range vc.prog.ghostFieldsOf(structKey(t)) {
+			env := &Env{vc: vc, pkg: vc.prog.typesPkgByName(g.Pkg)}
+			gt := env.resolveType(g.Type)
+			vc.writeKey(st, fieldKey(t, g.Name), gt, ref, vc.zero(gt))
+		}
 	case *types.Array:
 		et := u.Elem()
 		if isAggregate(et) {
